@@ -19,6 +19,7 @@ func extra(repo, out string, root, helpers *pkgFiles) {
 	}
 	if root != nil {
 		genReflect(out, root, irefl)
+		genProcessState(repo, out, root, helpers)
 		genEntryFacts(out, root)
 		genCacheFacts(out, root)
 		genMergeFacts(out, root)
